@@ -16,7 +16,7 @@ VARIABLES st, hist, m0
 
 MCSysKnown == <<9, 256>>
 Blocks == << <<11, 12, 13, 14, 15>>, <<21>>, <<>> >>
-Env == [mach |-> Mach, top |-> 0, base |-> m0]
+Env == [mach |-> Mach, top |-> 0, base |-> m0, stop |-> 0]
 Val(s, a) == Rd(Env, s.m, Loc(Env, a))
 Addr == 0..(Top - 1)
 Pages == IF Mach = 48 THEN {-1} ELSE IF MaxOps = 1 THEN {-1, 1, 5} ELSE {-1, 5}
